@@ -243,8 +243,53 @@ def r13_5(ctx, fx):
                detail="result tuples: %d (floor 5), tuples whose request id is not the captured one: %s" % (n, bad))
 
 
+def terminal_event_nodes(fn):
+    out = set()
+    for c in fn.calls(r"mpsc::(bounded::)?Sender::send$"):
+        if any("InnerRequestResponseEvent" in a for a in c.f.get("args", [])):
+            out.add(c.node)
+    for c in fn.calls(r"RequestResponseProtocol::report_request_failure$"):
+        out.add(c.node)
+    return out
+
+
+def r13_6(ctx, fx):
+    """at most one terminal event: a request id that is (still) registered in PeerContext::active will get a RequestFailed when the
+    connection closes, so no path may both register the id as active and emit a terminal event (or return Err, which the caller
+    turns into RequestFailed) without removing it from `active` in between."""
+    n = 0
+    for key in sorted(fx.find(r"^protocol::request_response::RequestResponseProtocol::[a-z_]+(::\{closure#0\})?$")):
+        fn = fx.fn(key)
+        # any call that may add to `.active`: every call on that set except the known readers / removers
+        adds = [c.node for c in fn.calls() if re.search(r"\.active($|[^_a-z])", fn.recv(c)) and c.name and "HashSet" in c.name
+                and not re.search(r"::(remove|take|contains|get|len|is_empty|iter|into_iter|retain|drain|clear|is_subset|is_superset|is_disjoint)$", c.name)]
+        for node, s in fn.aggregates(r"request_response::PeerContext$"):
+            rv = s["rv"]
+            if "active" in rv.get("fields", []):
+                o = rv["ops"][rv["fields"].index("active")]
+                pr = fn.producer(o)
+                if pr is None or not pr.matches(r"HashSet::new$|Default>?::default$"):
+                    adds.append(node)
+        if not adds:
+            continue
+        ctx.bodies.add((fx.cfg, key))
+        rem = {c.node for c in field_calls(fn, r"HashSet::remove$", "active")}
+        term = terminal_event_nodes(fn)
+        err_exits = {x for x, sh in fn.exits(r"^(Err|residual)") if all(t.startswith(("Err", "residual")) for t in sh)}
+        for i, a in enumerate(sorted(adds)):
+            n += 1
+            r = fn.reach([a], avoid=rem, after=True)
+            bad = sorted((term | err_exits) & r)
+            p = fn.witness_path([a], bad, avoid=rem, after=True) if bad else None
+            ctx.ob("R13.6", "%s/active-registration#%d:no-terminal-event-while-active" % (short(key), i), not bad, site=fn.site(a), cfg=fx.cfg,
+                   detail="request id registered in PeerContext::active and a terminal event / Err return on the same path without removing it: the request "
+                          "would get a second RequestFailed when the connection closes; witness %s" % (fn.path_sites(p) if p else ""))
+    ctx.anchor("R13.6", "active registrations", n, 1, cfg=fx.cfg)
+
+
 def run(ctx):
     fx = ctx.facts("default")
+    r13_6(ctx, fx)
     r13_1(ctx, fx)
     r13_2(ctx, fx)
     r13_3(ctx, fx)
